@@ -74,6 +74,8 @@ def instantiate(v, choices, picks, g, ctx=None, types=None):
     if isinstance(v, Choice):
         k = choices.get(v.sel, picks.get(v.sel, 0))
         return instantiate(v.alts[k], choices, picks, g, ctx, types)
+    if isinstance(v, Opaque) and v.name in getattr(g, 'unfolded', {}):
+        return instantiate(g.unfolded[v.name], choices, picks, g, ctx, types)
     if isinstance(v, Opaque):
         b = g.b
         if v.ty == 'Expression':
@@ -177,6 +179,61 @@ def native_walk_compare(chk, su, all_kinds):
     return ('same', text) if got == want else ('diff', text, want, got)
 
 
+def judge_unfolded(chk, r, s, items, root, inner, unfolded, must, mustnot, tvars, target_names):
+    """the walker took a child apart itself instead of recursing into it: the result must still be what the recursion would have given --
+    the child node itself iff its kind is requested, then what is below it, in order. -> None (correct) or a description"""
+    def expected(v):
+        out = []
+        for name in (possible(v, r.choices)[0][0]):
+            if name in unfolded:
+                u = unfolded[name]
+                kind = u.variant if u.variant in target_names else 'None'
+                out.append(('self', name, kind))
+                out += expected(u)
+            else:
+                out.append(name)
+        return out
+    exp = expected(inner)
+    got = []
+    for i, x in enumerate(items):
+        if isinstance(x, Opaque):
+            got.append(x.name)
+        elif i == 0 and x == root:
+            got.append('ROOT')
+        else:
+            inner_x = x.fields[0] if isinstance(x, Adt) and x.ty == 'Node' else x
+            while isinstance(inner_x, BoxV):
+                inner_x = inner_x.inner
+            nm = next((n for n, u in unfolded.items() if u is inner_x or u == inner_x or (isinstance(inner_x, Opaque) and inner_x.name == n)), None)
+            got.append(('self', nm))
+    if got and got[0] == 'ROOT':
+        if not must:
+            return 'the node itself is returned although its kind is not requested'
+        got = got[1:]
+    elif not mustnot:
+        return 'the node itself is not returned although its kind is requested'
+    gi = 0
+    for ent in exp:
+        if isinstance(ent, tuple):
+            _, name, kind = ent
+            tv = tvars[kind]
+            here = gi < len(got) and got[gi] == ('self', name)
+            chk.queries += 1
+            if here:
+                if s.check(z3.Not(tv)) != z3.unsat:
+                    return 'the child %s (a %s, taken apart by the walker) is returned although its kind need not be requested' % (name, kind)
+                gi += 1
+            elif s.check(tv) != z3.unsat:
+                return 'the child %s is a %s and this kind can be requested on this path, but the walker takes the child apart without returning it' % (name, kind)
+        else:
+            if gi >= len(got) or got[gi] != ent:
+                return 'children visited %r, expected (the child taken apart by the walker expanded) %r' % (got, [x if not isinstance(x, tuple) else x[:2] for x in exp])
+            gi += 1
+    if gi != len(got):
+        return 'children visited %r, expected %r' % (got, [x if not isinstance(x, tuple) else x[:2] for x in exp])
+    return None
+
+
 def install_symbolic_set(e, tvars):
     """the requested kinds are one Boolean per Target kind; whatever the walker asks of the set as a whole (iteration with all / any,
     size, emptiness) is answered by the corresponding formula over those Booleans"""
@@ -271,6 +328,16 @@ def variant_job(chk, job, ctx):
     e.stubs['walk_node_for_targets'] = stub_walk
     install_symbolic_set(e, tvars)
     e.flags['opaque_kinds'] = True
+
+    def unfold(en, v, kidx):
+        # the walker looks below a child: that child becomes a node of the decided kind with opaque children of its own
+        if int(re.sub(r'\D', '', v.name) or 0) >= 1000:
+            return None                      # one level only: a walker that keeps taking apart what it finds is followed one step
+        g2 = ptgen.Gen(types, L=1, tag=v.name + '_')
+        g2.Lnested = 1
+        g2.n = 1000 + 100 * int(re.sub(r'\D', '', v.name) or 0)
+        return g2.variant(v.ty, types.enums[v.ty][kidx][0])
+    e.flags['opaque_unfold'] = unfold
     g = ptgen.Gen(types, L=L, tag='w')
     # lists inside a node's own lists are bounded by 1, except in function definitions: there the attribute list is itself inside the
     # boxed definition, and the walker has per-attribute code (two modifier / base invocations with arguments must both be walked)
@@ -312,6 +379,17 @@ def variant_job(chk, job, ctx):
         must = s.check(z3.Not(tv)) == z3.unsat
         mustnot = s.check(tv) == z3.unsat
         items = r.value.items
+        unfolded = r.extra.get('unfolded', {})
+        if unfolded:
+            verdict = judge_unfolded(chk, r, s, items, root, inner, unfolded, must, mustnot, tvars, target_names)
+            if verdict is None:
+                chk.ok(); continue
+            g.unfolded = unfolded
+            try:
+                report(chk, g, ty, label, inner, r, {}, verdict, all_kinds, tvars)
+            finally:
+                g.unfolded = {}
+            continue
         got_self = [i for i, x in enumerate(items) if not isinstance(x, Opaque)]
         got_seq = tuple(x.name for x in items if isinstance(x, Opaque))
         self_ok = (got_self == [0] and items[0] == root and must) or (got_self == [] and mustnot)
